@@ -21,6 +21,7 @@ func main() {
 	tier := flag.String("tier", "quick", "quick|thorough")
 	repo := flag.String("repo", "/repo", "repository root")
 	verif := flag.String("verif", "/verif", "verif directory (evidence, known findings)")
+	overlay := flag.String("overlay-root", "", "directory whose files replace the same relative paths of -repo during analysis (witness replay)")
 	flag.Parse()
 	if t := os.Getenv("VERIF_TIER"); t != "" && *tier == "" {
 		*tier = t
@@ -56,7 +57,7 @@ func main() {
 				code = 2
 			}
 		}()
-		p = loadProg(*repo)
+		p = loadProg(*repo, *overlay)
 	}()
 	if code != 0 {
 		os.Exit(code)
